@@ -319,7 +319,9 @@ func (e diskEngine) Gen(job *Job) *Case {
 			// a project with 2-4 rule violations of the generator's 27 defect kinds (duplicates,
 			// undefined references, broken path parameters, ...): error paths are code too
 			c.Project = genMultiDefect(r.Fork())
-		} else if r.Chance(1, 4) {
+		} else if r.Chance(1, 2) {
+			// one defect (or one unusual but accepted construct) on top of a valid project: nothing
+			// found in an earlier phase masks it. Most genuine crashes of the pinned tree were of this kind
 			c.Project = genSingleDefect(r.Fork())
 		}
 	case k < w[0]+w[1]:
